@@ -61,6 +61,14 @@ def docs(label="b"):
     d["jsonld-two"] = ("json-ld", json.dumps([{"@id": "_:" + L, P: {"@id": O}}, {"@id": "_:" + L, Q: {"@id": O}}]), two, False)
     d["jsonld-across"] = ("json-ld", json.dumps([{"@id": G1, "@graph": [{"@id": "_:" + L, P: {"@id": O}}]},
                                                  {"@id": G2, "@graph": [{"@id": "_:" + L, Q: {"@id": O}}]}]), across, True)
+    # anonymous blank nodes (no label at all): [ ] in the Turtle family, a node element without rdf:nodeID, a node object without @id
+    d["ttl-anon"] = ("turtle", "@prefix : <%s> .\n[ :p :o ] .\n" % EX, one, False)
+    d["ttl-anon-two"] = ("turtle", "@prefix : <%s> .\n[ :p :o ; :q :o ] .\n" % EX, two, False)
+    d["n3-anon"] = ("n3", "@prefix : <%s> .\n[ :p :o ] .\n" % EX, one, False)
+    d["n3-anon-two"] = ("n3", "@prefix : <%s> .\n[ :p :o ; :q :o ] .\n" % EX, two, False)
+    d["trig-anon"] = ("trig", "@prefix : <%s> .\n{ [ :p :o ] . }\n" % EX, one, True)
+    d["xml-anon"] = ("xml", '<rdf:RDF xmlns:rdf="%s" xmlns:e="%s"><rdf:Description><e:p rdf:resource="%s"/></rdf:Description></rdf:RDF>' % (RDF_NS, EX, O), one, False)
+    d["jsonld-anon"] = ("json-ld", json.dumps({P: {"@id": O}}), one, False)
     d["hext-one"] = ("hext", json.dumps(["_:" + L, P, O, "globalId", "", ""]) + "\n", one, True)
     d["hext-across"] = ("hext", json.dumps(["_:" + L, P, O, "globalId", "", G1]) + "\n" + json.dumps(["_:" + L, Q, O, "globalId", "", G2]) + "\n", across, True)
     return d
